@@ -28,6 +28,78 @@ type LockSpec struct {
 	HeldBy map[string]int
 	// FreshCtors: functions (FullName) whose result is a new, not yet shared object.
 	FreshCtors map[string]bool
+	// ElemHeldBy: wrapper functions (FullName) that return with the locks of ALL elements of their i-th argument
+	// (a slice of objects) held for writing until the caller's exit (the unlock is the returned func, deferred).
+	ElemHeldBy map[string]int
+	// AltHeld: an alternative that makes an access safe although the object's own lock is not held (e.g. an
+	// exclusive tree lock); decided by the rule that owns the spec.
+	AltHeld func(fn *ssa.Function, instr ssa.Instruction) bool
+	// SubGuard narrows a guarded field that is a struct to some of its components: it is asked for every
+	// address &obj.guarded and says whether this use touches a component that is part of the discipline.
+	SubGuard func(addr ssa.Value) bool
+}
+
+// ElemReq is added to a parameter index to express "the locks of all elements of this slice parameter".
+const ElemReq = 1000
+
+// elemOf: v is an element read from a slice (s[i], possibly of a re-sliced s[a:b]); returns the root slice.
+func elemOf(v ssa.Value) (ssa.Value, bool) {
+	v = resolveCell(Origin(v))
+	ld, ok := v.(*ssa.UnOp)
+	if !ok || ld.Op != token.MUL {
+		return nil, false
+	}
+	ia, ok := ld.X.(*ssa.IndexAddr)
+	if !ok {
+		return nil, false
+	}
+	if _, isSlice := ia.X.Type().Underlying().(*types.Slice); !isSlice {
+		return nil, false
+	}
+	return ia.X, true
+}
+
+func sliceRoot(v ssa.Value) ssa.Value {
+	c := sliceChain(v)
+	return c[len(c)-1]
+}
+
+// sliceChain: v and the slices it was cut from (v = w[a:b] ...), innermost first; a lock on the elements of any of
+// them covers the elements of v.
+func sliceChain(v ssa.Value) []ssa.Value {
+	var out []ssa.Value
+	for d := 0; d < 8; d++ {
+		v = resolveCell(Origin(v))
+		out = append(out, v)
+		sl, ok := v.(*ssa.Slice)
+		if !ok {
+			break
+		}
+		v = sl.X
+	}
+	return out
+}
+
+// wholeSlice strips re-slicings without bounds (s[:]) only.
+func wholeSlice(v ssa.Value) ssa.Value {
+	for d := 0; d < 8; d++ {
+		v = resolveCell(Origin(v))
+		sl, ok := v.(*ssa.Slice)
+		if !ok || sl.Low != nil || sl.High != nil || sl.Max != nil {
+			return v
+		}
+		v = sl.X
+	}
+	return v
+}
+
+func elemsHeld(ls lockset, slice ssa.Value, m lockMode) bool {
+	for _, s := range sliceChain(slice) {
+		if ls["elems:"+BaseKey(s)] >= m {
+			return true
+		}
+	}
+	return false
 }
 
 type lockMode uint8
@@ -78,6 +150,34 @@ func BaseKey(v ssa.Value) string {
 	v = resolveCell(Origin(v))
 	if purePath(v, 0) {
 		return "path:" + Path(v)
+	}
+	// field selections from one SSA value (a call result, a range element, ...): the value's identity plus the
+	// selected fields, so that two loads of x.f from the same x denote the same object (same caveat as for paths:
+	// no store to the field in between).
+	var sel []string
+	root := v
+walk:
+	for d := 0; d < 8; d++ {
+		switch x := root.(type) {
+		case *ssa.UnOp:
+			fa, ok := x.X.(*ssa.FieldAddr)
+			if x.Op != token.MUL || !ok {
+				break walk
+			}
+			sel = append(sel, fieldName(fa.X.Type(), fa.Field))
+			root = resolveCell(Origin(fa.X))
+		case *ssa.FieldAddr:
+			sel = append(sel, "&"+fieldName(x.X.Type(), x.Field))
+			root = resolveCell(Origin(x.X))
+		case *ssa.Field:
+			sel = append(sel, fieldName(x.X.Type(), x.Field))
+			root = resolveCell(Origin(x.X))
+		default:
+			break walk
+		}
+	}
+	if len(sel) > 0 {
+		return fmt.Sprintf("val:%s@%p/%s", root.Name(), root, strings.Join(sel, "/"))
 	}
 	return fmt.Sprintf("val:%s@%p", v.Name(), v)
 }
@@ -233,6 +333,16 @@ func (la *lockAnalysis) transfer(ls lockset, in ssa.Instruction) {
 		}
 		return
 	}
+	if la.spec.ElemHeldBy != nil {
+		if f := ci.Common().StaticCallee(); f != nil {
+			if idx, ok := la.spec.ElemHeldBy[FullName(f)]; ok && deferredResult(ci) {
+				as := Args(ci.Common())
+				if idx < len(as) {
+					ls["elems:"+BaseKey(wholeSlice(as[idx]))] = modeW
+				}
+			}
+		}
+	}
 	if la.spec.HeldBy != nil {
 		if f := ci.Common().StaticCallee(); f != nil {
 			if idx, ok := la.spec.HeldBy[FullName(f)]; ok {
@@ -287,6 +397,23 @@ func (la *lockAnalysis) compute(fn *ssa.Function) []lockset {
 	}
 	la.in[fn] = in
 	return in
+}
+
+// deferredResult: the func value returned by the call is invoked by a defer of the same function and by nothing else.
+func deferredResult(ci ssa.CallInstruction) bool {
+	v := ci.Value()
+	if v == nil || v.Referrers() == nil {
+		return false
+	}
+	n := 0
+	for _, ref := range *v.Referrers() {
+		d, ok := ref.(*ssa.Defer)
+		if !ok || d.Call.Value != ssa.Value(v) {
+			return false
+		}
+		n++
+	}
+	return n == 1
 }
 
 // heldAt returns the lockset just before instr.
@@ -507,6 +634,20 @@ func AnalyzeLock(spec *LockSpec, funcs []*ssa.Function) *LockResult {
 			}
 			return "requires"
 		}
+		if sl, ok := elemOf(base); ok {
+			if elemsHeld(ls, sl, m) {
+				return "held"
+			}
+			if idx, ok := paramIndex(fn, sliceRoot(sl)); ok && idx >= 0 {
+				if addReq(fn, ElemReq+idx, m, field, instr, via) {
+					work = append(work, fn)
+				}
+				return "requires"
+			}
+		}
+		if spec.AltHeld != nil && spec.AltHeld(fn, instr) {
+			return "held"
+		}
 		what := "read"
 		if m == modeW {
 			what = "write"
@@ -517,6 +658,29 @@ func AnalyzeLock(spec *LockSpec, funcs []*ssa.Function) *LockResult {
 		}
 		res.Findings = append(res.Findings, LockFinding{Fn: fn, Instr: instr, Field: field, Write: m == modeW,
 			Reason: fmt.Sprintf("%s of %s.%s%s: %s (object %s is neither a parameter, nor freshly allocated)", what, spec.Type.Obj().Name(), field, via, held, Path(base))})
+		return "unlocked"
+	}
+	// needElems: the locks of all elements of slice must be held at instr.
+	needElems := func(fn *ssa.Function, instr ssa.Instruction, slice ssa.Value, m lockMode, field, via string) string {
+		if _, ok := spec.ExemptFuncs[FullName(fn)]; ok {
+			return "exempt"
+		}
+		sl := sliceRoot(slice)
+		ls := la.heldAt(instr)
+		if elemsHeld(ls, slice, m) {
+			return "held"
+		}
+		if idx, ok := paramIndex(fn, sl); ok && idx >= 0 {
+			if addReq(fn, ElemReq+idx, m, field, instr, via) {
+				work = append(work, fn)
+			}
+			return "requires"
+		}
+		if spec.AltHeld != nil && spec.AltHeld(fn, instr) {
+			return "held"
+		}
+		res.Findings = append(res.Findings, LockFinding{Fn: fn, Instr: instr, Field: field, Write: m == modeW,
+			Reason: fmt.Sprintf("the locks of the elements of %s are not held%s", Path(sl), via)})
 		return "unlocked"
 	}
 	// 1. direct accesses
@@ -537,6 +701,9 @@ func AnalyzeLock(spec *LockSpec, funcs []*ssa.Function) *LockResult {
 					}
 				}
 				if base == nil || !spec.Guarded[fld] {
+					continue
+				}
+				if spec.SubGuard != nil && !spec.SubGuard(addr) {
 					continue
 				}
 				w := la.isWrite(addr, 0)
@@ -561,6 +728,21 @@ func AnalyzeLock(spec *LockSpec, funcs []*ssa.Function) *LockResult {
 		work = work[1:]
 		for idx, rq := range reqs[fn] {
 			via := fmt.Sprintf(" (needed by %s for %s)", shortPkg(FullName(fn)), rq.field)
+			if idx >= ElemReq {
+				for _, cs := range la.callers[fn] {
+					as := cs.Common().Args
+					if idx-ElemReq >= len(as) {
+						continue
+					}
+					if _, isGo := cs.(*ssa.Go); isGo {
+						res.Findings = append(res.Findings, LockFinding{Fn: cs.Parent(), Instr: cs, Field: rq.field, Write: rq.mode == modeW,
+							Reason: "goroutine started on " + shortPkg(FullName(fn)) + " which needs the locks of the elements of its argument on entry"})
+						continue
+					}
+					needElems(cs.Parent(), cs, as[idx-ElemReq], rq.mode, rq.field, via)
+				}
+				continue
+			}
 			if idx >= 0 {
 				// interface dispatch that may reach fn
 				if recv := fn.Signature.Recv(); recv != nil {
